@@ -195,4 +195,34 @@ CHECKS = {
         "level_note": "Expiries within 5 s of now are never asserted either way. Client and server share one clock (in-process).",
         "assumptions": ["expired <=> expiry != 0 and expiry < now"],
     },
+    "C22": {
+        "pkg": "sdkapi", "run": "^TestC22", "level": "exploration",
+        "shards": {"quick": 2, "thorough": 16},
+        "technique": "reflect-built model types + round-trip / metamorphic property-based testing through the Go SDK over an in-memory gRPC connection",
+        "level_text": "Struct types (key-only, single value, map-body, profile; 22 field kinds; metadata with and without omitempty; tag names incl. identifiers containing reserved "
+                      "words) and values are generated, saved and read back through the real SDK against an in-process server; read-back equality is checked under a stated normal "
+                      "form, and renaming a non-reserved body tag must change nothing that is read back.",
+        "level_note": "Normal form: nil == empty for slices/maps/bytes, NaN == NaN, -0 == 0, value/profile times at seconds resolution (documented), metadata times at nanoseconds. "
+                      "Times lie in 1971-2200; maps have string keys only.",
+        "assumptions": ["the SDK must accept every generated catalog model (each follows the documented rules)"],
+    },
+    "C26": {
+        "pkg": "sdkapi", "run": "^TestC26", "level": "exploration",
+        "shards": {"quick": 4, "thorough": 16}, "timeout": {"quick": 1200, "thorough": 5400},
+        "technique": "protobuf-descriptor-driven structural request fuzzing (rapid) with a watchdog / panic-log / system-lock / vigil / reload oracle",
+        "level_text": "Wire-decodable requests for every RPC (each field valid, boundary or malformed) are sent in-process and through gRPC against a rig holding a sentinel swamp. "
+                      "Per request: returns within 10 s, no escaped panic, no recovered panic answered as an empty success, system lock released, no leaked vigil; per case: "
+                      "every touched swamp reloads equal to memory, read-only RPCs leave their target untouched, the sentinel stays exact; a batch facet adds graceful stop + restart.",
+        "level_note": "Requests that only an in-process caller can build (nil list elements) are excluded: the wire cannot carry them. Process-killing inputs are run in child processes.",
+        "assumptions": ["island id is consistent per swamp name"],
+    },
+    "C27": {
+        "pkg": "sdkapi", "run": "^TestC27", "level": "exploration",
+        "shards": {"quick": 2, "thorough": 16},
+        "technique": "model-based state-machine property-based testing through the Go SDK over an in-memory gRPC connection",
+        "level_text": "Histories of Hydrex Save (additions, removals, value changes, empty sets), Destroy and closes of the underlying swamps over <= 2 indexes, 4 domains and 6 keys are "
+                      "checked after every action against a map model and its derived reverse index (GetCoreData / GetIndexData as sets).",
+        "level_note": "Idle closing is replaced by explicit closes of the core and index swamps.",
+        "assumptions": ["Save adds/updates core data (package documentation)"],
+    },
 }
